@@ -70,6 +70,8 @@ type Input struct {
 	Pages int
 	Tags  map[string]bool // pdfgen: xrefstream objstm hybrid updates inherit annots sig viewer form outlines files enc
 	Enc   string          // algorithm of an encrypted pdfgen input ("" = clear)
+	// StrictOK: the input also passes api.ValidateFile in strict mode (only computed when PoolOptions.Strict).
+	StrictOK bool
 }
 
 // Pool is the input pool plus the fixture directory.
@@ -79,7 +81,7 @@ type Pool struct {
 	Inputs []Input
 	// statistics
 	CorpusCandidates, CorpusRejected, GenRejected int
-	many                                         []int // indices of inputs with >= 8 pages
+	many                                          []int // indices of inputs with >= 8 pages
 }
 
 // PoolOptions sizes the pool.
@@ -87,6 +89,7 @@ type PoolOptions struct {
 	Corpus   int   // corpus files to draw (<= 0: none); files that do not validate are dropped
 	Gen      int   // pdfgen documents to build
 	MaxBytes int64 // corpus size bound (default 1 MiB)
+	Strict   bool  // also record whether each input passes strict validation (Input.StrictOK)
 }
 
 func relaxedConf() *model.Configuration {
@@ -176,6 +179,9 @@ func BuildPool(t *vk.T, o PoolOptions) *Pool {
 			return
 		}
 		corpus[i] = &Input{Name: cands[i], Path: path, Kind: "corpus", Pages: n, Tags: map[string]bool{}}
+		if o.Strict {
+			corpus[i].StrictOK = Validate(path, true) == nil
+		}
 	})
 	for _, in := range corpus {
 		if in != nil {
@@ -188,6 +194,9 @@ func BuildPool(t *vk.T, o PoolOptions) *Pool {
 	gen := make([]*Input, o.Gen)
 	vk.Parallel(o.Gen, func(i int) {
 		gen[i] = p.genInput(t, i)
+		if gen[i] != nil && o.Strict {
+			gen[i].StrictOK = Validate(gen[i].Path, true) == nil
+		}
 	})
 	for _, in := range gen {
 		if in != nil {
